@@ -244,10 +244,44 @@ func checkFreshSlot(c *core.Ctx) {
 			n++
 			good := true
 			var check func(v ssa.Value, depth int)
+			// what a helper of the package hands back (a stage of AssembleValue split off into its own function) is
+			// judged by what the helper returns
+			helperResult := func(cl *ssa.Call, idx int, depth int) bool {
+				g := core.HelperCallee(cl.Parent(), cl)
+				if g == nil || depth > 4 {
+					return false
+				}
+				for _, ret := range core.Returns(g) {
+					if idx >= len(ret.Results) {
+						return false
+					}
+					if ei := core.ErrResultIndex(g); ei >= 0 && ei != idx && core.ResultNilness(ret, ei) == core.NonNil {
+						continue
+					}
+					for _, rv := range core.ResultValues(ret, idx) {
+						if core.IsZeroMarker(rv) {
+							continue
+						}
+						if cst, isC := rv.(*ssa.Const); isC && cst.Value == nil {
+							continue // the zero reflect.Value of a failure return
+						}
+						check(rv, depth+1)
+					}
+				}
+				return true
+			}
 			check = func(v ssa.Value, depth int) {
 				switch x := v.(type) {
+				case *ssa.Extract:
+					if cl, ok := x.Tuple.(*ssa.Call); ok && helperResult(cl, x.Index, depth) {
+						return
+					}
+					good = false
 				case *ssa.Call:
-					if o := core.CalleeObj(x); o == nil || o.Pkg() == nil || o.Pkg().Path() != "reflect" {
+					if o := core.CalleeObj(x); o != nil && o.Pkg() != nil && o.Pkg().Path() == "reflect" {
+						return
+					}
+					if !helperResult(x, 0, depth) {
 						good = false
 					}
 				case *ssa.Phi:
@@ -260,9 +294,9 @@ func checkFreshSlot(c *core.Ctx) {
 					}
 				case *ssa.UnOp:
 					// a local variable of this activation (possibly captured by the finish closure): look at what it was assigned
-					if al, ok := x.X.(*ssa.Alloc); ok && al.Parent() == fn && depth <= 4 {
+					if al, ok := x.X.(*ssa.Alloc); ok && al.Parent() != nil && depth <= 6 {
 						found := 0
-						for _, g := range core.WithClosures(fn) {
+						for _, g := range core.WithClosures(al.Parent()) {
 							core.Instrs(g, func(in2 ssa.Instruction) {
 								if s2, ok := in2.(*ssa.Store); ok {
 									root := s2.Addr
